@@ -65,10 +65,13 @@ int main(int argc, char** argv)
         std::vector<uint64_t> out;
         for (auto v : s) if (v < LIM / tps) out.push_back(v);
         out.push_back(LIM / tps - 1);
+        out.push_back(LIM / tps);          // the last, only partly representable second: ticks up to LIM % tps
         return out;
     };
+    // (secs, ticks) stays within 2^63 - 1 ticks since the epoch
+    auto inrange = [&](uint64_t s, uint64_t t, uint64_t tps) { return s < LIM / tps || (s == LIM / tps && t <= LIM % tps); };
     auto ticks_for = [&](uint64_t tps) {
-        std::vector<uint64_t> t = {0, 1, tps / 2, tps - 1};
+        std::vector<uint64_t> t = {0, 1, tps / 2, tps - 1, LIM % tps, (LIM % tps) > 0 ? (LIM % tps) - 1 : 0};
         std::sort(t.begin(), t.end()); t.erase(std::unique(t.begin(), t.end()), t.end());
         std::vector<uint64_t> out; for (auto v : t) if (v < tps) out.push_back(v);
         return out;
@@ -88,11 +91,13 @@ int main(int argc, char** argv)
     for (auto tps : rates) {
         auto ss = secs_for(tps); auto tt = ticks_for(tps);
         for (auto s : ss) for (auto t : tt) for (auto rs : ss) for (auto rt : tt) {
+            if (!inrange(s, t, tps) || !inrange(rs, rt, tps)) continue;
             if (!mine()) continue;
             Timestamp a(s, t), b(rs, rt);
             emit_off(a, b, tps); emit_inv(a, b, tps); emit_cmp(a, b, tps);
         }
         for (auto rs : ss) for (auto rt : tt) for (auto off : offs) {
+            if (!inrange(rs, rt, tps)) continue;
             // sums beyond 2^63 - 1 ticks are included: the result is unconstrained then, but the addition must be defined
             if (!mine()) continue;
             emit_add(Timestamp(rs, rt), off, tps);
